@@ -2,6 +2,7 @@
 #ifndef VH_PER_CORE_HPP
 #define VH_PER_CORE_HPP
 
+#include <functional>
 #include "tsm_core.hpp"
 #include "algorithms/periodic/tbfalgorithmperiodictoptree.hpp"
 #include "algorithms/periodic/tbfalgorithmperiodictoptreetsm.hpp"
@@ -19,25 +20,30 @@ template <class Top, int D> bool intervalOf(const Top& top, long& lo, long& hi, 
     return true;
 }
 
+template <class A, class B, class C> using SeqAlgo = TbfAlgorithm<A, B, C>;
 // executor abstraction: runs the documented four-call sequence
-template <class E, template <class, class, class> class Algo> void periodicSingle(const Conf<E>& c, long extra, Result& res, const char* tag) {
+template <class E, template <class, class, class> class Algo> void periodicSingle(const Conf<E>& c, long extra, Result& res, const char* tag, const std::function<void(vp::RecCtx<E::Cfg::Dim>&)>& setup = nullptr, const std::function<void()>& beforeExecute = nullptr) {
     constexpr int D = E::Cfg::Dim;
     using Real = typename E::Cfg::RealType;
     using namespace TbfAlgorithmUtils;
     const long N = long(c.parts.size());
     PolyRun<E, typename E::CheckedPoly> pr; pr.build(c);
     vp::RecCtx<D> rc; fillRecCtx<E>(rc, *pr.tree, *pr.cfg, &c.parts, &c.parts);
+    if (setup) setup(rc);
     E::CheckedPoly::globalCtx() = &rc;
     const uint64_t h0 = tbx::hashSymbolic(*pr.tree);
     long lo = 0, hi = 0;
     {
         auto algo = std::make_unique<Algo<Real, typename E::CheckedPoly, typename E::Space>>(*pr.cfg, TbfDefaultLastLevelPeriodic);
         auto top = std::make_unique<TbfAlgorithmPeriodicTopTree<Real, typename E::CheckedPoly, typename E::PV, typename E::PV, typename E::Space>>(*pr.cfg, extra);
+        if (beforeExecute) beforeExecute();
         algo->execute(*pr.tree, TbfBottomToTopStages);
         rc.topTree = true; rc.topHeight = extra + 5; rc.nbLevelsAbove0 = extra;
         top->execute(*pr.tree);
         rc.topTree = false;
+        if (beforeExecute) beforeExecute();
         algo->execute(*pr.tree, TbfTransferStages);
+        if (beforeExecute) beforeExecute();
         algo->execute(*pr.tree, TbfTopToBottomStages);
         if (!intervalOf<decltype(*top), D>(*top, lo, hi, res, tag)) return;
     }
@@ -70,22 +76,27 @@ template <class E> void periodicCounting(const Conf<E>& c, long extra, Result& r
     res.ev("counting-runs");
 }
 
-template <class E> void periodicTsm(const TsmConf<E>& c, long extra, Result& res, const char* tag) {
+template <class A, class B, class C> using SeqAlgoTsm = TbfAlgorithmTsm<A, B, C>;
+template <class E, template <class, class, class> class AlgoTsm = SeqAlgoTsm> void periodicTsm(const TsmConf<E>& c, long extra, Result& res, const char* tag, const std::function<void(vp::RecCtx<E::Cfg::Dim>&)>& setup = nullptr, const std::function<void()>& beforeExecute = nullptr) {
     constexpr int D = E::Cfg::Dim;
     using Real = typename E::Cfg::RealType;
     using namespace TbfAlgorithmUtils;
     TsmPolyRun<E> pr; pr.build(c);
     vp::RecCtx<D> rc; pr.fillRec(rc, c);
+    if (setup) setup(rc);
     E::CheckedPoly::globalCtx() = &rc;
     long lo = 0, hi = 0;
     {
-        auto algo = std::make_unique<TbfAlgorithmTsm<Real, typename E::CheckedPoly, typename E::Space>>(*pr.cfg, TbfDefaultLastLevelPeriodic);
+        auto algo = std::make_unique<AlgoTsm<Real, typename E::CheckedPoly, typename E::Space>>(*pr.cfg, TbfDefaultLastLevelPeriodic);
         auto top = std::make_unique<TbfAlgorithmPeriodicTopTreeTsm<Real, typename E::CheckedPoly, typename E::PV, typename E::PV, typename E::Space>>(*pr.cfg, extra);
+        if (beforeExecute) beforeExecute();
         algo->execute(*pr.tree, TbfBottomToTopStages);
         rc.topTree = true; rc.topHeight = extra + 5; rc.nbLevelsAbove0 = extra;
         top->execute(*pr.tree);
         rc.topTree = false;
+        if (beforeExecute) beforeExecute();
         algo->execute(*pr.tree, TbfTransferStages);
+        if (beforeExecute) beforeExecute();
         algo->execute(*pr.tree, TbfTopToBottomStages);
         if (!intervalOf<decltype(*top), D>(*top, lo, hi, res, tag)) return;
     }
@@ -94,8 +105,6 @@ template <class E> void periodicTsm(const TsmConf<E>& c, long extra, Result& res
     pr.compare(res, std::string(tag) + ":poly-image-sum");
     res.ev("periodic-tsm-runs");
 }
-
-template <class A, class B, class C> using SeqAlgo = TbfAlgorithm<A, B, C>;
 
 template <class E> Segment c10Segment(long nQ, long nT) {
     constexpr int D = E::Cfg::Dim;
